@@ -129,9 +129,10 @@ def coord(mode):
         return st.integers(-6, 6).map(float)
     if mode == "dyadic":
         return st.integers(-48, 48).map(lambda k: k / 8.0)
-    return st.one_of(st.floats(min_value=-100, max_value=100, allow_nan=False, allow_infinity=False, width=64),
+    chop = lambda x: 0.0 if abs(x) < 1e-9 else x           # no underflow of products is probed
+    return st.one_of(st.floats(min_value=-100, max_value=100, allow_nan=False, allow_infinity=False, width=64).map(chop),
                      st.integers(-3, 3).map(float),
-                     st.floats(min_value=-1e-3, max_value=1e-3, allow_nan=False, allow_infinity=False, width=64))
+                     st.floats(min_value=-1e-3, max_value=1e-3, allow_nan=False, allow_infinity=False, width=64).map(chop))
 
 
 MODES = ["int", "int", "dyadic", "float", "float"]
@@ -1158,3 +1159,242 @@ def machine_case(draw):
     mesh = draw(st.one_of(st.none(), st.lists(m_vals(3), min_size=1, max_size=5)))
     ops = draw(st.lists(m_ops(D), min_size=2, max_size=25))
     return {"dim": D, "mesh": mesh, "ops": ops}
+
+
+def snap(o):
+    """bytewise snapshot of an argument / tracked object"""
+    if isinstance(o, np.ndarray):
+        return ("nd", type(o).__name__, o.dtype.str, o.shape, o.tobytes())
+    if isinstance(o, (list, tuple)):
+        return (type(o).__name__,) + tuple(snap(x) for x in o)
+    if isinstance(o, (bool, int, float, complex, str, type(None), np.generic)):
+        return ("s", type(o).__name__, repr(o))
+    return ("obj", id(o))
+
+
+def show(o):
+    if isinstance(o, np.ndarray):
+        return f"{type(o).__name__}({o.tolist()}, {o.dtype})"
+    return repr(o)
+
+
+def fn_machine(case, ctx):
+    from mouette import geometry as geom
+    from mouette.geometry import AABB, Vec
+    from mouette.geometry import rotations as rot
+    from mouette.utils import maths
+    from vlib.build import pointcloud_from, coords
+    D = case["dim"]
+    arrays, boxes = [], []
+    origin = {}                         # id -> how the object came to exist (for messages)
+    mesh = pointcloud_from(case["mesh"]) if case["mesh"] else None
+
+    def track(o, why):
+        if isinstance(o, AABB):
+            if not any(o is b for b in boxes):
+                boxes.append(o)
+                origin[id(o)] = why
+        elif isinstance(o, np.ndarray):
+            if not any(o is a for a in arrays):
+                arrays.append(o)
+                origin[id(o)] = why
+        elif isinstance(o, (tuple, list)):
+            for x in o:
+                if isinstance(x, (np.ndarray, AABB)):
+                    track(x, why)
+
+    def resolve(spec, step):
+        if not isinstance(spec, list):
+            return spec
+        tag = spec[0]
+        if tag == "v":
+            _, k, vals, form = spec
+            if k is not None:
+                cands = [a for a in arrays if a.ndim == 1 and a.size == len(vals)]
+                if cands:
+                    return cands[k % len(cands)]
+            o = make(vals, form)
+            track(o, f"caller array created for step {step}")
+            return o
+        if tag == "r":
+            _, k, vals, form = spec
+            if k is not None:
+                cands = [a for a in arrays if isinstance(a, Vec) and a.ndim == 1 and a.size == len(vals)]
+                if cands:
+                    return cands[k % len(cands)]
+            o = make(vals, form)
+            track(o, f"Vec created for step {step}")
+            return o
+        if tag == "b":
+            if not boxes:
+                track(AABB(np.zeros(D), np.ones(D)), f"box created for step {step}")
+            return boxes[spec[1] % len(boxes)]
+        if tag == "pts":
+            rows, form = spec[1], spec[2]
+            n = min(len(r) for r in rows)
+            rows = [r[:n] for r in rows]
+            if form == "f8" or (form == "i8" and not all(float(x) == int(x) for r in rows for x in r)):
+                o = np.array(rows, dtype=float)
+            elif form == "i8":
+                o = np.array([[int(x) for x in r] for r in rows], dtype=np.int64)
+            elif form == "vecs":
+                o = [Vec([float(x) for x in r]) for r in rows]
+            else:
+                o = [[float(x) for x in r] for r in rows]
+            track(o, f"point array created for step {step}")
+            return o
+        if tag == "flat":
+            o = np.array(spec[1], dtype=float)
+            track(o, f"caller array created for step {step}")
+            return o
+        return spec
+
+    def bget(b, what):
+        return {"mini": lambda: b.mini, "maxi": lambda: b.maxi, "span": lambda: b.span, "center": lambda: b.center, "dim": lambda: b.dim,
+                "is_empty": b.is_empty, "repr": lambda: repr(b)}[what]()
+
+    def bbin(a, b, what):
+        return {"intersection": lambda: AABB.intersection(a, b), "and": lambda: a & b, "do_intersect": lambda: AABB.do_intersect(a, b),
+                "union": lambda: AABB.union(a, b), "or": lambda: a | b}[what]()
+
+    TABLE = {
+        "AABB": lambda a, b: AABB(a, b), "AABB.frombox": lambda b: AABB(b.mini, b.maxi), "AABB.unit_cube": AABB.unit_cube, "AABB.infinite": AABB.infinite,
+        "AABB.of_points": AABB.of_points, "AABB.of_mesh": lambda p: AABB.of_mesh(mesh, p), "box.get": bget, "box.binary": bbin,
+        "box.pad": lambda b, p: b.pad(p), "box.contains_point": lambda b, p: b.contains_point(p), "box.project": lambda b, p: b.project(p),
+        "box.distance": lambda b, p, w: b.distance(p, w),
+        "Vec": lambda a: Vec(a), "Vec.args": lambda x, y, z: Vec(x, y, z), "Vec.from_complex": lambda x, y: Vec.from_complex(complex(x, y)),
+        "Vec.zeros": Vec.zeros, "Vec.random": Vec.random, "Vec.XYZ": lambda n: getattr(Vec, n)(),
+        "vec.get": lambda v, n: getattr(v, n), "vec.set": lambda v, n, x: setattr(v, n, x), "vec.norm": lambda v, w: v.norm(w),
+        "vec.dot": lambda v, o: v.dot(o), "vec.outer": lambda v, o: v.outer(o), "vec.normalize": lambda v, w: v.normalize(w),
+        "Vec.normalized": lambda v, w: Vec.normalized(v, w),
+        "face_basis.list": lambda a, b, c: geom.face_basis([a, b, c]), "det_2x2.complex": lambda x, y, b: geom.det_2x2(complex(x, y), b),
+        "det_3x3.matrix": lambda m: geom.det_3x3(m), "roots": lambda x, y, n, nz: maths.roots(complex(x, y), n, nz),
+        "angle_diff": maths.angle_diff, "principal_angle": maths.principal_angle, "solve_quadratic": maths.solve_quadratic,
+        "rotate_2d": rot.rotate_2d, "rotate_around_axis": rot.rotate_around_axis, "axis_rot_from_z": rot.axis_rot_from_z,
+    }
+    for nm in ("sign", "sign0", "norm", "dot", "distance", "cross", "cotan", "angle_3pts", "signed_angle_2vec3D", "signed_angle_3pts", "angle_2vec2D",
+               "angle_2vec3D", "face_basis", "triangle_area", "triangle_area_2D", "quad_area", "det_2x2", "det_3x3", "intersect_2lines2D", "circumcenter",
+               "aspect_ratio", "distance_to_segment2D", "project_to_plane"):
+        TABLE[nm] = getattr(geom, nm)
+    INPLACE_VEC = ("vec.set", "vec.normalize")
+
+    raised_at = None
+    n_raised = 0
+    for step, op in enumerate(case["ops"]):
+        name = op[0]
+        if name == "seterr":
+            np.seterr(**ERR_CONFIGS[op[1]])
+            ctx.label("user-seterr")
+            continue
+        if name == "AABB.of_mesh" and mesh is None:
+            continue
+        if name == "det_3x3.matrix":
+            args = [np.array(op[1], dtype=float)]
+            track(args[0], f"caller matrix created for step {step}")
+        else:
+            args = [resolve(s, step) for s in op[1:]]
+        where = f"step {step}: {name}({', '.join(show(a) if not isinstance(a, AABB) else repr(a) for a in args)})"
+        receiver = args[0] if name in INPLACE_VEC or name == "box.pad" else None
+        # ---- snapshots
+        arg_snaps = [snap(a) for a in args]
+        arr_snaps = [snap(a) for a in arrays]
+        box_snaps = [(b.mini, b.maxi, snap(b.mini), snap(b.maxi)) for b in boxes]
+        mesh_snap = coords(mesh).tobytes() if mesh is not None else None
+        n_arr, n_box = len(arrays), len(boxes)
+        exempt_arr, exempt_box = set(), set()
+        if name in INPLACE_VEC and isinstance(receiver, np.ndarray):
+            exempt_arr = {i for i, a in enumerate(arrays) if a is receiver or np.shares_memory(a, receiver)}
+            exempt_box = {i for i, b in enumerate(boxes) if np.shares_memory(b.mini, receiver) or np.shares_memory(b.maxi, receiver)}
+        elif name == "box.pad" and isinstance(receiver, AABB):
+            exempt_box = {i for i, b in enumerate(boxes) if b is receiver}
+            exempt_arr = {i for i, a in enumerate(arrays) if a is receiver.mini or a is receiver.maxi}
+            if any(i not in exempt_arr and (np.shares_memory(a, receiver.mini) or np.shares_memory(a, receiver.maxi)) for i, a in enumerate(arrays)):
+                ctx.label("pad:box-shares-caller-array")
+            if any(i not in exempt_box and (np.shares_memory(b.mini, receiver.mini) or np.shares_memory(b.maxi, receiver.maxi)) for i, b in enumerate(boxes)):
+                ctx.label("pad:box-shares-other-box")
+        err_before = np.geterr()
+        # ---- the call
+        exc = None
+        try:
+            res = TABLE[name](*args)
+        except Exception as e:
+            exc, res = e, None
+        err_after = np.geterr()
+        outcome = f"raised {type(exc).__name__}: {exc}" if exc is not None else "returned"
+        ctx.label("op:" + name.split(".")[0].lower() if name[0] in "ABVbv" else "op:function")
+        if exc is not None:
+            n_raised += 1
+            if raised_at is None:
+                raised_at = step
+            ctx.label("raised:" + type(exc).__name__)
+        elif raised_at is not None:
+            ctx.label("call-after-raise")
+            ctx.nontrivial()
+        # ---- oracle 1: numpy's error configuration
+        if err_after != err_before:
+            np.seterr(**err_before)          # so that later steps are meaningful when this is a listed finding
+        ctx.check(err_after == err_before, "side-effect:numpy-errstate", f"{where} {outcome}: numpy.geterr() was {err_before}, is {err_after}")
+        # ---- oracle 2: arguments
+        for i, a in enumerate(args):
+            if a is receiver:
+                continue
+            if isinstance(a, np.ndarray) and any(a is arrays[j] for j in exempt_arr):
+                continue
+            if isinstance(a, AABB):
+                continue                      # boxes are compared below
+            ctx.check(snap(a) == arg_snaps[i], "side-effect:argument", f"{where} {outcome}: argument {i} is now {show(a)}")
+        # ---- oracle 3: everything created before
+        for i in range(n_arr):
+            if i in exempt_arr:
+                continue
+            if snap(arrays[i]) != arr_snaps[i]:
+                ctx.check(False, "side-effect:other-array", f"{where} {outcome}: array #{i} ({origin.get(id(arrays[i]))}) changed to {show(arrays[i])}")
+            else:
+                ctx.n_assert += 1
+        for i in range(n_box):
+            if i in exempt_box:
+                continue
+            b = boxes[i]
+            m0, M0, s0, S0 = box_snaps[i]
+            same_box = snap(b.mini) == s0 and snap(b.maxi) == S0
+            if not same_box:
+                what = "argument box" if any(b is a for a in args) else "box"
+                ctx.check(False, "side-effect:other-box", f"{where} {outcome}: {what} #{i} ({origin.get(id(b))}) changed to {b!r}")
+            else:
+                ctx.n_assert += 1
+        if mesh is not None:
+            ctx.check(coords(mesh).tobytes() == mesh_snap, "side-effect:mesh", f"{where} {outcome}: mesh vertices changed")
+        # ---- bookkeeping
+        if exc is None:
+            if isinstance(res, np.ndarray) and any(isinstance(a, np.ndarray) and np.shares_memory(res, a) for a in args):
+                ctx.label("result-aliases-argument")
+            track(res, f"result of step {step} {name}")
+    ctx.label("raises=%s" % ("0" if n_raised == 0 else "1" if n_raised == 1 else "2+"))
+
+
+# =============================================================================================== registration
+SUBCHECKS = [
+    SubCheck("aabb_laws", aabb_case(), fn_aabb, quick=600, thorough=2500),
+    SubCheck("vector_laws", vector_case(), fn_vector, quick=400, thorough=1500),
+    SubCheck("shape_laws", shape_case(), fn_shape, quick=500, thorough=2000),
+    SubCheck("angle_laws", angle_case(), fn_angle, quick=500, thorough=2000),
+    SubCheck("rotation_laws", rotation_case(), fn_rotation, quick=300, thorough=1200),
+    SubCheck("maths_laws", maths_case(), fn_maths, quick=500, thorough=2000),
+    SubCheck("side_effects", machine_case(), fn_machine, quick=800, thorough=3000),
+]
+
+MATCHERS = {}
+
+
+def self_test():
+    """the reference arithmetic against independent implementations"""
+    from scipy.spatial.transform import Rotation
+    rng = np.random.RandomState(0)
+    for _ in range(20):
+        a, b, c = rng.randint(-9, 9, (3, 3))
+        assert float(fdet3(fv(a), fv(b), fv(c))) == round(np.linalg.det(np.array([a, b, c], float)))
+        assert [float(x) for x in fcross(fv(a), fv(b))] == list(np.cross(a, b).astype(float))
+        ax, ang, v = rng.randn(3), rng.uniform(-6, 6), rng.randn(3)
+        assert np.allclose(rodrigues(v, ax, ang), Rotation.from_rotvec(ax / np.linalg.norm(ax) * ang).apply(v), atol=1e-12)
+        assert abs(fsqrt(Fr(int(a[0]) ** 2 + 7, 3)) - math.sqrt((int(a[0]) ** 2 + 7) / 3)) < 1e-14
+        assert abs(kahan_angle(v, ax) - math.acos(np.dot(v, ax) / np.linalg.norm(v) / np.linalg.norm(ax))) < 1e-9
